@@ -190,7 +190,7 @@ func checkEncode(c *vm.Ctx, g *gotypes.Gen) {
 		return
 	}
 	if err != nil {
-		c.Violation("enc/error-on-accepted-kind/"+vm.NormMsg(stripQuoted(err.Error())), fmt.Sprintf("Encode returned error for a value of the documented universe: %v", err), wit())
+		c.Violation("enc/error-on-accepted-kind/"+vm.NormErr(err.Error()), fmt.Sprintf("Encode returned error for a value of the documented universe: %v", err), wit())
 		return
 	}
 	tree, gotName, n, perr := refnbt.Parse(buf.Bytes(), network)
